@@ -139,22 +139,12 @@ UriBool URI_FUNC(RemoveDotSegmentsEx)(URI_TYPE(Uri) * uri,
 				URI_TYPE(PathSegment) * const nextBackup = walker->next;
 
 				/*
-				 * Is this dot segment essential,
-				 * i.e. is there a chance of changing semantics by dropping this dot segment?
-				 *
-				 * For example, changing "./http://foo" into "http://foo" would change semantics
-				 * and hence the dot segment is essential to that case and cannot be removed.
+				 * A leading dot segment can be essential: changing "./http://foo" into
+				 * "http://foo" would change semantics.  Whether it is depends on what
+				 * the path looks like once ALL dot segments are gone, so every "."
+				 * is removed here and FixAmbiguityEx puts one back in front if needed.
 				 */
 				removeSegment = URI_TRUE;
-				if (relative && (walker == uri->pathHead) && (walker->next != NULL)) {
-					const URI_CHAR * ch = walker->next->text.first;
-					for (; ch < walker->next->text.afterLast; ch++) {
-						if (*ch == _UT(':')) {
-							removeSegment = URI_FALSE;
-							break;
-						}
-					}
-				}
 
 				if (removeSegment) {
 					/* .. then let's go remove that segment. */
